@@ -5,7 +5,8 @@
    player is JavaName(Format(fmt, gamertag)); it must be Valid: 1..16 characters out of
    A-Z a-z 0-9 _ .  JavaName is the reference normalisation (each code point itself if
    allowed, else "_"; cut at 16; empty -> "_").  TLC checks on every gamertag over a
-   hostile alphabet (letters, digit, "_", space, ".", e-acute, an emoji, NUL) of length
+   hostile alphabet (letters, digit, "_", space, ".", e-acute, an emoji, NUL, case-folding
+   lookalikes of s / k / i) of length
    <= MaxShort and on long ones (15..18) under every format that the result is Valid,
    that JavaName is idempotent and leaves Valid names alone; a normalisation that cuts
    at 17 must violate.  The inputs are exported.
@@ -22,7 +23,9 @@ JavaName(s0) == LET s == s0
                     k == IF Len(s) < Cut THEN Len(s) ELSE Cut
                 IN IF k = 0 THEN <<95>> ELSE [i \in 1..k |-> IF Allowed(s[i]) THEN s[i] ELSE 95]
 
-Alphabet == {97, 90, 53, 95, 32, 46, 233, 128512, 0}
+\* ... and the code points that Unicode case folding identifies with ASCII letters:
+\* U+017F long s, U+212A Kelvin sign, U+0130 dotted capital I, U+0131 dotless i
+Alphabet == {97, 90, 53, 95, 32, 46, 233, 128512, 0, 383, 8490, 304, 305}
 \* formats as prefix / suffix around %s; "" means the gamertag is used as it is
 Formats == {[pre |-> <<>>, suf |-> <<>>], [pre |-> <<46>>, suf |-> <<>>], [pre |-> <<95>>, suf |-> <<>>],
             [pre |-> <<42>>, suf |-> <<95, 98, 101>>]}
@@ -31,7 +34,7 @@ Format(f, tag) == f.pre \o tag \o f.suf
 RECURSIVE Tags(_)
 Tags(n) == IF n = 0 THEN {<<>>} ELSE LET T == Tags(n - 1) IN T \cup {Append(t, a) : t \in {x \in T : Len(x) = n - 1}, a \in Alphabet}
 \* long gamertags: a filler with one hostile character at the cut
-Long == {[i \in 1..n |-> IF i = k THEN a ELSE 97] : n \in 12..18, k \in {1, 13, 15, 16, 17}, a \in {97, 32, 128512}}
+Long == {[i \in 1..n |-> IF i = k THEN a ELSE 97] : n \in 12..18, k \in {1, 13, 15, 16, 17}, a \in {97, 32, 128512, 383, 8490}}
 
 VARIABLES tag, f
 Init == tag \in Tags(MaxShort) \cup Long /\ f \in Formats
